@@ -11,6 +11,8 @@ PROP = {
         "bin": "smsim", "pkg": "tm/tmengine/internal/tmstate", "inject": [("smsim", "tm/tmengine/internal/tmstate")],
         "tests": [
             {"name": "TestVerifC08RoundRules", "quick": 6000, "thorough": 640000, "shards": {"quick": 4, "thorough": 16}, "env": {"GOMAXPROCS": "2"}},
+            # thorough only: the same unit compiled with the data race detector
+            {"name": "TestVerifC08RoundRulesDetector", "thorough": 32000, "shards": {"thorough": 8}, "salt": 4, "race": True, "env": {"GOMAXPROCS": "2", "GORACE": "halt_on_error=1"}},
         ],
     }],
 }
